@@ -828,7 +828,7 @@ func main() {
 		r.Distinct("b")
 		r.Finish()
 	}
-	budget, maxBound := 45*time.Second, 2
+	budget, maxBound := 60*time.Second, 2
 	if r.Thorough() {
 		budget, maxBound = 8*time.Minute, 3
 	}
